@@ -5,6 +5,7 @@ import PoseVerif.Model.JS
 import PoseVerif.Driver.Masked
 import PoseVerif.Driver.Collate
 import PoseVerif.Driver.PoseOps
+import PoseVerif.Driver.Represent
 import PoseVerif.Model.Frames
 import PoseVerif.Model.OpenPose
 import PoseVerif.Model.Select
@@ -156,6 +157,8 @@ def handle (j : Json) : R Json := do
   | "masked_prog" => runMaskedProg j
   | "collate" => runCollate j
   | "body_ops" => runBodyOps j
+  | "represent" => runRepresent j
+  | "rep_layout" => runRepLayout j
   | "select" =>
     let comps ← (← (← j.getObjVal? "components").getArr?).toList.mapM compOfJson
     let hexList (v : Json) : R (List String) := do
